@@ -1059,8 +1059,7 @@ def run(rep):
             t = ("S", op, ("V", x), pure)
             guard = pure if op == "=" else ("B", op[:-1], ("V", x), pure)
             stmt = True
-        # avoidance of C02-incdec-negative-add-segv: operands of ++/-- stay positive
-        best = find_values(rng, [guard], (), tries=12, vals=[1, 2, 3, 5, 7, 8])
+        best = find_values(rng, [guard], (), tries=12)      # negative operands too since fix 7c216d9
         if best is None:
             continue
         eff_cases.append((t, best[1], stmt))
@@ -1182,9 +1181,9 @@ def run(rep):
                 "program printing println(e) for the minimal / fully parenthesised / randomly parenthesised text under operand values "
                 "found by brute force in the model; distinct = distinct text (x operand values); non-trivial = contains an operator",
         "exhaustive": True,
-        "exhaustive_space": "all 18x18 ordered pairs of binary operators x both groupings x {minimal, full, redundant pair at root/left/right} "
+        "exhaustive_space": "all 18x18 ordered pairs of binary operators x both groupings x {minimal, full, redundant pair at each of the 5 positions} "
                             "(%d trees) + %d unary/postfix/ternary/assignment nestings%s; value level: all 648 pair groupings" % (
-                                n_exh, len(nesting_cases()) * 2, "" if quick else " + all 18^3 operator triples x 5 shapes"),
+                                n_exh, len(nesting_cases()) * 3, "" if quick else " + all 18^3 operator triples x 5 shapes"),
         "input_distribution": hist, "avoided_known_findings": avoided, "samples": samples,
     })
     rep.assumptions += [
